@@ -82,6 +82,8 @@ def nontrivial(case, out):
 
 
 def oracle(case, out):
+    if out.startswith("DIFF"):
+        return "the same two values compare / hash differently depending on how they were assembled (owned vs borrowing one buffer): %s for %s" % (out, case[:200])
     if out.startswith("PANIC") or out in ("HANG", "CRASH"):
         return "%s on %s" % (out, case[:300])
     if case.startswith("OWN") and out.startswith("OK") and not out.endswith(" same"):
